@@ -144,7 +144,16 @@ fn setup(t: &mut Tape, info: &mut CaseInfo) -> Result<Option<(rosu_pp::Beatmap, 
     let mut spec = gen_map(t, &profile);
     let target = pick_target(t, spec.mode);
     steer_taiko(&mut spec, target, info);
-    let dspec = gen_diff(t, &DiffProfile::realistic(), target);
+    let mut dspec = gen_diff(t, &DiffProfile::realistic(), target);
+    // a quarter of the calculators is built from a Difficulty that already carries passed_objects:
+    // whatever it makes of the value, the iterator protocol must still hold
+    if t.chance(1, 4) {
+        dspec.passed = Some(match t.weighted(&[2, 4]) {
+            0 => 0,
+            _ => t.range(0, spec.objects.len() as i64 + 2) as u32,
+        });
+        info.label("preset-passed_objects");
+    }
     let map = spec.decode();
     let d = dspec.build(target);
     map_labels(&spec, info);
